@@ -17,8 +17,19 @@ Tie        : arim.im.das.delay_and_sum(frame, focal_law, ...) on real arim.Frame
              (T/D) random floats at 1e-11 (float32 configurations 1e-5), lookups
                  closer than 1e-9 to a decision boundary excluded and counted;
              (L) Lanczos, median, Huber through the extracted OCaml model (libm sin);
+             (M) theorems das_permutation, das_unit_amp, das_linear_in_data evaluated on
+                 the implementation (exact on dyadic frames);
              (X) the dispatcher (kernel chosen / error class) against the model's
                  decision table over the whole finite domain.
+             corpus/C02/*.json (minimised cases: the repaired linear left edge and the
+             four known findings of the median aggregation) is replayed first.
+Median / Huber: compared with the model at 1e-7 AND checked against the property
+             itself on the implementation's value (median: the objective sum|z-d_i|,
+             extracted geomed_f, cannot be decreased from z; Huber: |sum psi_tau| ~ 0).
+             Known findings (one root cause: geomed's gradient / Hessian are singular at
+             data points) carry the stable keys median:start-on-fill-value,
+             median:stalls-near-data-point, median:collinear-samples,
+             median:iterate-hits-sample; any other disagreement has key das:<kernel>.
 Search     : the extracted spec (das_spec, per pixel) is evaluated on the
              implementation's inputs whenever a correspondence breaks; a pixel where
              the implementation differs from the spec is a failing input, shrunk to
@@ -656,9 +667,15 @@ for (fi, ri), out in zip(lindex, louts):
             chk.violation("das:" + name, "the model rejects a request the implementation serves", rep, failing_input_found=False)
             continue
         model_fail_any = False
+        collinear_any = False
+        onsample_any = False
         filled = ~((positions(spec) >= 0) & (positions(spec) < spec["ns"]))     # statistics / classification only
         for p in range(P):
-            mre, mim, pred, resid = toks[4 * p], toks[4 * p + 1], unhex(toks[4 * p + 2]), unhex(toks[4 * p + 3])
+            mre, mim, pred, resid = toks[6 * p], toks[6 * p + 1], unhex(toks[6 * p + 2]), unhex(toks[6 * p + 3])
+            collinear = toks[6 * p + 4] == "1"
+            onsample = toks[6 * p + 5] == "1"
+            collinear_any |= collinear
+            onsample_any |= onsample
             model_fail = mre in ("maxiter", "noalpha") or math.isnan(unhex(mre))
             model_fail_any |= model_fail
             if run["impl_error"] is not None:
@@ -677,6 +694,15 @@ for (fi, ri), out in zip(lindex, louts):
                         f"{name}: fillvalue=0 and an out-of-window lookup: geomed starts ON the delayed sample (0,0) "
                         f"(0/0), the pixel is silently left unwritten (value {v}); not the geometric median "
                         f"(objective can be decreased by {pred:.3g})")
+                elif run["kernel"] != 7 and model_fail and collinear:
+                    key, what = "median:collinear-samples", (
+                        f"{name}: pixel {p}: the delayed samples are collinear (e.g. every lookup out of window, or data with zero "
+                        f"imaginary part): geomed's Hessian is singular (0/0); value {v} is not the geometric median "
+                        f"(objective can be decreased by {pred:.3g})")
+                elif run["kernel"] != 7 and onsample and not same:
+                    key, what = "median:iterate-hits-sample", (
+                        f"{name}: pixel {p}: the geometric median IS a delayed sample ({m}); geomed's iterates run into it (r -> 0, 0/0): "
+                        f"the implementation gives {v} (objective can be decreased by {pred:.3g})")
                 elif run["kernel"] != 7 and same:
                     key, what = "median:stalls-near-data-point", (
                         f"{name}: pixel {p}: geomed (implementation and model alike) stops at {v}, where the objective "
@@ -718,6 +744,16 @@ for (fi, ri), out in zip(lindex, louts):
                               f"{name}: fillvalue=0 and an out-of-window lookup: geomed starts ON the delayed sample (0,0) (0/0); "
                               f"the call raised {run['impl_error']} instead of returning the geometric median",
                               rep, failing_input_found=True)
+            elif run["kernel"] != 7 and collinear_any and model_fail_any:
+                stats["robust_property_failures"] += 1
+                chk.violation("median:collinear-samples",
+                              f"{name}: collinear delayed samples at some pixel: geomed's Hessian is singular (0/0); the call raised "
+                              f"{run['impl_error']} instead of returning the geometric median", rep, failing_input_found=True)
+            elif run["kernel"] != 7 and onsample_any:
+                stats["robust_property_failures"] += 1
+                chk.violation("median:iterate-hits-sample",
+                              f"{name}: at some pixel the geometric median IS a delayed sample; geomed's iterates run into it (0/0) and the call "
+                              f"raised {run['impl_error']} (the model's IEEE evaluation converges)", rep, failing_input_found=True)
             elif model_fail_any:
                 stats["robust_errors_agreed"] += 1
             else:
